@@ -1292,7 +1292,7 @@ def nsecbits(ctx: Any) -> List[Ob]:
     obs.append(ob(R, w, tot[0] if tot else 'total_octets = byte + 1', 'the bitmap emitted is the first (highest byte index + 1) bytes of the window', tot_ok and bool(sl_ok)))
     ctor = prog.cls('zeroconf._dns.DNSNsec').methods['__init__']
     srt = [st for st in walk_local_ordered(ctor.node) if isinstance(st, ast.Assign) and self_attr(st.targets[0], ctor.params[0]) == 'rdtypes']
-    obs.append(ob(R, ctor, srt[0] if srt else 'self.rdtypes = sorted(rdtypes)', 'the types are kept in ascending order (the writer sizes the bitmap by the last one)', len(srt) == 1 and isinstance(srt[0].value, ast.Call) and norm(srt[0].value.func) == 'sorted'))
+    obs.append(ob(R, ctor, srt[0] if srt else 'self.rdtypes = sorted(rdtypes)', 'the types are kept in ascending order (the writer sizes the bitmap by the last one)', len(srt) == 1 and isinstance(_xp(ctor, srt[0].value), ast.Call) and norm(_xp(ctor, srt[0].value).func) == 'sorted'))
     lim = [t for t in walk_local_ordered(w.node) if isinstance(t, ast.If) and any(isinstance(x, ast.Raise) for x in t.body) and isinstance(t.test, ast.Compare) and any(isinstance(x, ast.Name) for x in ast.walk(t.test)) and t in [y for lp in walk_local_ordered(w.node) if isinstance(lp, ast.For) for y in lp.body]]
     lim_ok = False
     if len(lim) == 1:
